@@ -117,6 +117,21 @@ func ruleLeaderPlaceholder(c *Ctx) {
 		n := namedOf(s.Elem())
 		return n != nil && n.Obj() == peer.Obj()
 	}
+	// does any entry written to a leader list take the region's leader?
+	someEntryIsTheLeader := false
+	for _, b := range fn.Blocks {
+		for _, ins := range b.Instrs {
+			if st, ok := ins.(*ssa.Store); ok {
+				if _, isIdx := st.Addr.(*ssa.IndexAddr); isIdx {
+					for _, alt := range valueAlternatives(st.Val, 3) {
+						if valueIsCallTo(alt, getLeader) {
+							someEntryIsTheLeader = true
+						}
+					}
+				}
+			}
+		}
+	}
 	check := func(elem ssa.Value, at ssa.Instruction, what string) {
 		okAll := true
 		detail := ""
@@ -163,7 +178,13 @@ func ruleLeaderPlaceholder(c *Ctx) {
 			}
 		}
 		if !hasLeader {
-			okAll, detail = false, "the region's own leader is never the entry"
+			// the placeholder written as an append of its own: it must be the branch taken without a leader, and the
+			// function must file the leader itself somewhere
+			nilEdge := guardRel("the region's leader is nil", "==", resultOfCall(getLeader), isNilConst)
+			_, fails := requireAt(P, fn, 0, []Ev{nilEdge}, func(x ssa.Instruction) bool { return x == at }, all)
+			if len(fails) > 0 || !someEntryIsTheLeader {
+				okAll, detail = false, "the region's own leader is never the entry"
+			}
 		}
 		if isPhi && okAll {
 			nn := guardRel("the region's leader is not nil", "!=", resultOfCall(getLeader), isNilConst)
@@ -734,6 +755,15 @@ func ruleSenderPairing(c *Ctx) {
 				for _, alt := range valueAlternatives(st.Val, 3) {
 					if cl, _ := callOf(alt); cl != nil {
 						if f := cl.Call.StaticCallee(); f != nil && f.Name() == gname && fnPkgPath(f) == modPath+"/server/core" {
+							return true
+						}
+					}
+				}
+				// the leader entry may be the placeholder (written as its own append in the other branch): what every
+				// iteration must do is file *an* entry in the leader list; which one is the leader-placeholder rule's
+				if gname == "GetLeader" {
+					if pt, isPtr := st.Val.Type().Underlying().(*types.Pointer); isPtr {
+						if nn := namedOf(pt.Elem()); nn != nil && nn.Obj().Name() == "Peer" {
 							return true
 						}
 					}
